@@ -371,6 +371,13 @@ type optionWriter struct {
 }
 
 func (w *optionWriter) addByte(optType uint8, data []byte) {
+	// RFC 3396: a value longer than 255 bytes is split over several
+	// instances of the option, which the client concatenates.
+	for len(data) > 255 {
+		w.buf = append(w.buf, optType, 255)
+		w.buf = append(w.buf, data[:255]...)
+		data = data[255:]
+	}
 	w.buf = append(w.buf, optType, uint8(len(data)))
 	w.buf = append(w.buf, data...)
 }
